@@ -154,7 +154,7 @@ func budget(tier string) time.Duration {
 	if tier == "thorough" {
 		return 20 * time.Minute
 	}
-	return 100 * time.Second
+	return 180 * time.Second
 }
 
 func runCheck(p *Property, tier string) int {
